@@ -96,6 +96,7 @@ DocArgs(sel) == LET m == MarkBy(TRUE, sel) IN IF m = 0 THEN "" ELSE From(sel, m 
 (* base.py isrequestsecure *)
 Secure(sel) == /\ ~Contains(sel, "./") /\ ~Contains(sel, "..") /\ ~Contains(sel, "//")
                /\ ~Contains(sel, ".\\") /\ ~Contains(sel, "\\\\")
+               /\ ~(Len(sel) >= 2 /\ SubSeq(sel, Len(sel) - 1, Len(sel)) = "/.")
 
 (* the gate shared by ExecHandler and PYGHandler *)
 Gate(a, vfs) == vfs = "real" /\ a.fs = "real" /\ a.t = "reg" /\ a.ox
